@@ -76,6 +76,7 @@ class Opts:
         self.force_strat = False
         self.shared_names_bias = 0.0  # probability that a new flow re-uses the NAME of an earlier flow of any kind (names need not be unique)
         self.rebalance_repeat_bias = 0.0  # probability of the sequence A, B, A' of population-split adjustments (A' repeats A's stratification and filter with other proportions; B overlaps A)
+        self.strain_bias = 0.0        # probability of choosing a strain stratification whenever one is still possible
         self.shuffle_strat_comps_bias = 0.0  # probability that a stratification lists its compartments in another order than the model does
         self.zero_adjust_bias = 0.0   # probability that a Multiply adjustment is the literal 0 (a stratum that receives / passes nothing)
         self.inexact_split_bias = 0.0  # probability that a literal split sums to one only within the API's tolerance (0.01), or that a split of two independent parameters is used (not checked by the API)
@@ -405,6 +406,8 @@ class Gen:
         if o.allow_age and not any(s["kind"] == "age" for s in self.strats): kinds.append("age")
         if o.allow_strain and not any(s["kind"] == "strain" for s in self.strats): kinds.append("strain")
         kind = r.choice(kinds)
+        if o.strain_bias > 0 and "strain" in kinds and r.random() < o.strain_bias:
+            kind = "strain"
         forced_mix = self.force_mix.pop(0) if getattr(self, "force_mix", None) else None
         if forced_mix:
             kind = "plain"
